@@ -39,6 +39,8 @@ def colvar_block(i, v):
         L.append("  timeStepFactor %d" % v["tsf"])
     if v.get("extra"):
         L += ["  " + x for x in v["extra"]]
+    if v.get("dist"):
+        L += ["  distance {", "    group1 { atomNumbers %d }" % (v["dist"][0] + 1), "    group2 { atomNumbers %d }" % (v["dist"][1] + 1), "  }"]
     if v.get("vec"):
         L += ["  distanceVec {"] + (["    componentCoeff %r" % v["vec"]["coeff"]] if v["vec"].get("coeff", 1.0) != 1.0 else []) + [
               "    group1 { atomNumbers %s }" % " ".join(str(a + 1) for a in v["vec"]["g1"]),
@@ -83,7 +85,7 @@ def bias_block(sc, j):
     elif b["kind"] == "F":
         L += ["  applyBias off", "  fullSamples 1"]
     elif b["kind"] == "FA":
-        L += ["  fullSamples %d" % b.get("full", 2)]
+        L += ["  fullSamples %d" % b.get("full", 2)] + (["  hideJacobian on"] if b.get("hidej") else [])
     if b.get("grid"):
         L += ["  scaledBiasingForce on", "  scaledBiasingForceFactorsGrid sf_%d_%d.dat" % (sc["id"], j)]
     L.append("}")
@@ -117,7 +119,7 @@ def scenario_lines(sc, subset, tag):
     L = ["echo CASE %s" % tag, "natoms %d" % sc["natoms"]]
     for a, m in enumerate(sc["mass"]):
         L.append("mass %d %r" % (a + 1, float(m)))
-    L += ["samestep %d" % (1 if sc.get("samestep", True) else 0), "new"]
+    L += ["samestep %d" % (1 if sc.get("samestep", True) else 0), "temperature %r" % float(sc.get("temperature", 0.0)), "new"]
     if sc["it0"]:
         L.append("setstep %d" % sc["it0"])
     scripted = bool(sc.get("script_runs")) and tag.split(":")[-1] in sc["script_runs"]
@@ -342,7 +344,8 @@ def parse_impl(lines):
                             "apply": int(d["apply"]), "arc": int(d["arc"]), "x": hf(d["x"]), "fb": hf(d["fb"]),
                             "fba": hf(d["fba"]), "f": hf(d["f"]), "ext": int(d.get("ext", "0")),
                             "xr": hf(d["xr"]) if "xr" in d else None, "xa": hf(d["xa"]) if "xa" in d else None,
-                            "fr": hf(d["fr"]) if "fr" in d else None, "extk": hf(d["extk"]) if "extk" in d else None})
+                            "fr": hf(d["fr"]) if "fr" in d else None, "extk": hf(d["extk"]) if "extk" in d else None,
+                            "fj": hf(d["fj"]) if "fj" in d else None, "hidej": int(d.get("hidej", "0")), "tsf": int(d.get("tsf", "1"))})
         elif l.startswith("MB "):
             d = kv(l)
             st["B"].append({"name": l.split()[1], "act": int(d["act"]), "rc": int(d["rc"]), "awake": int(d["awake"]),
@@ -1213,6 +1216,64 @@ def restart_scenario(r, k):
     return sc
 
 
+def jacobian_scenario(r, k):
+    """hideJacobian under multiple time stepping: a distance variable (Jacobian force 2kT/r) with timeStepFactor n, an ABF bias with
+    hideJacobian on and applyBias on and the same factor (and sometimes a harmonic restraint with the same factor), T = 300,
+    same-step total forces; atoms on the z axis so that the gradient is exactly (0,0,+-1)"""
+    n = r.choice([1, 2, 3, 5])
+    v = {"tsf": n, "w": 0.5, "lo": 0.0, "hi": 16.0, "comps": [], "dist": [0, 1]}
+    biases = [{"kind": "FA", "tsf": n, "vars": [0], "k": 0.0, "full": r.choice([1, 2]), "hidej": r.random() < 0.85}]
+    if r.random() < 0.5:
+        biases.append({"kind": "H", "tsf": n, "vars": [0], "k": r.choice([1.0, 2.0]), "centers": [dy(r, 2, 6, 2)]})
+    ev = []
+    for s_ in range(3 * n + r.randint(2, 5)):
+        z1 = dy(r, -2, 0, 2)
+        ev.append(("S", [[0.0, 0.0, z1], [0.0, 0.0, z1 + dy(r, 1, 6, 3)], [0.0, 0.0, 0.0]], [[0.0, 0.0, dy(r, -2, 2, 2)], [0.0, 0.0, dy(r, -2, 2, 2)], [0.0, 0.0, 0.0]]))
+    return {"id": k, "family": "jacobian", "natoms": 3, "mass": [1.0, 1.0, 1.0], "vars": [v], "biases": biases, "it0": pick_it0(r, (0, 0, 1)),
+            "events": ev, "A": [0], "B": list(range(1, len(biases))), "temperature": 300.0}
+
+
+def oracle_jacobian(run, sc, tag, subset, isteps, model):
+    """O15: colvar::f = sum over the active applying biases of factor_b * F_b - factor_v * fj * [hideJacobian and apply_force]
+    (F_b: the bias's own dumped force; fj: the variable's Jacobian force), zero while the variable sleeps; the atoms on the
+    axis receive -f and +f; tie: the extracted jac_force on the dumped fb, fb_actual, fj"""
+    nj = 0
+    cases, where = [], []
+    for s in range(first_error(isteps)):
+        im = isteps[s]
+        iv = im["V"][0]
+        n = sc["vars"][0]["tsf"]
+        awake = im["it"] % n == 0
+        byname = {bb["name"]: bb for bb in im["B"]}
+        want = 0.0
+        if awake:
+            for j in subset:
+                bb = byname.get("b%d" % j)
+                if bb and bb["act"] and bb["apply"]:
+                    want += sc["biases"][j]["tsf"] * bb["F"][0]
+            if iv["hidej"] and iv["apply"]:
+                want -= n * iv["fj"]
+                nj += 1 if iv["fj"] != 0.0 else 0
+        if bool(iv["act"]) != awake or not close(iv["f"], want):
+            run.violation("pipeline:jacobian:variable-force", "scenario %d run %s step %d (it=%d): variable with timeStepFactor %d, hideJacobian %d: applied force %r (active %d), factor*(bias forces) - factor*fj = %r (fj = %r)"
+                          % (sc["id"], tag, s, im["it"], n, iv["hidej"], iv["f"], iv["act"], want, iv["fj"]), replay_of_scripted(sc, s))
+            return nj
+        ia = atomf(im, sc["natoms"])
+        if not close(ia[1][2], iv["f"]) or not close(ia[0][2], -iv["f"]):
+            run.violation("pipeline:jacobian:atom-force", "scenario %d run %s step %d: atoms receive %s, the variable's force is %r" % (sc["id"], tag, s, ia, iv["f"]),
+                          replay_of_scripted(sc, s))
+            return nj
+        if iv["act"]:
+            cases.append("JAC 1 %d %d %d %s %s %s" % (n, iv["hidej"], iv["apply"], hx(iv["fb"]), hx(iv["fba"]), hx(iv["fj"])))
+            where.append(s)
+    if cases:
+        rc, mo, _e = V.run_lines(model, cases)
+        for s, line in zip(where, mo):
+            if not close(hf(line.strip()), isteps[s]["V"][0]["f"]):
+                run.mismatch("pipeline:jacobian", {"scenario": sc["id"], "run": tag, "step_index": s}, isteps[s]["V"][0]["f"], hf(line.strip()))
+    return nj
+
+
 def coupling_scenario(r, k):
     """lagged engine forces that include the Colvars forces, a one-atom distanceZ variable with subtractAppliedForce and
     outputTotalForce, two restraints: the total force reported at step t+1 must be the engine's own force of step t,
@@ -1291,7 +1352,7 @@ def run_batch(unit, model, scs, d):
         for t, sub in subsets.items():
             tag = "%d:%s" % (sc["id"], t)
             L += scenario_lines(sc, sub, tag)
-            if all(sc["biases"][j]["kind"] not in ("F", "FA") for j in sub) and sc["family"] not in ("ext", "scripted", "vector") and t != "P" and not t.startswith("N") \
+            if all(sc["biases"][j]["kind"] not in ("F", "FA") for j in sub) and sc["family"] not in ("ext", "scripted", "vector", "jacobian") and t != "P" and not t.startswith("N") \
                and not any(ev[0] == "D" for ev in sc["events"]):
                 for q_, seg in enumerate(model_case(sc, sub).split(" @@ ")):
                     M.append(seg)
@@ -1361,6 +1422,9 @@ def check(run):
     for _ in range(16 if quick else 400):
         scs.append(restart_scenario(r, k))
         k += 1
+    for _ in range(16 if quick else 400):
+        scs.append(jacobian_scenario(r, k))
+        k += 1
     for _ in range(12 if quick else 300):
         scs.append(ext_scenario(r, k))
         k += 1
@@ -1376,6 +1440,7 @@ def check(run):
     windows = 0
     zero_skipped = 0
     abf_nonzero = 0
+    jac_nonzero = 0
     for b0 in range(0, len(scs), BATCH):
         batch = scs[b0:b0 + BATCH]
         impl, mod, (rc, err) = run_batch(unit, model, batch, d)
@@ -1412,7 +1477,9 @@ def check(run):
                     compare_model(run, sc, t, sub, msteps, isteps)
                 if sc["family"] == "vector":
                     oracle_vector(run, sc, t, sub, isteps)
-                if sc["family"] not in ("nonbiasing", "ext", "abfcoupling", "scripted", "vector"):
+                if sc["family"] == "jacobian":
+                    jac_nonzero += oracle_jacobian(run, sc, t, sub, isteps, model)
+                if sc["family"] not in ("nonbiasing", "ext", "abfcoupling", "scripted", "vector", "jacobian"):
                     oracle_spec(run, sc, t, sub, isteps)
                     w = oracle_impulse(run, sc, t, sub, isteps)
                     windows += w
@@ -1463,7 +1530,8 @@ def check(run):
                             "script_AB": scenario_lines(sc, sorted(sc["A"] + sc["B"]), "x")[:60]})
     run.cov["correspondence"].update({"scenarios": len(scs), "impulse_windows_checked": windows,
                                       "coupling_steps_with_total_force_exactly_zero": zero_skipped,
-                                      "abf_coupling_steps_with_nonzero_abf_force": abf_nonzero})
+                                      "abf_coupling_steps_with_nonzero_abf_force": abf_nonzero,
+                                      "jacobian_steps_with_hidden_nonzero_fj": jac_nonzero})
 
 
 def replay(path):
